@@ -26,7 +26,34 @@ def _import ():
   logging.getLogger().addHandler(logging.NullHandler())
   logging.getLogger().setLevel(logging.CRITICAL + 1)
   logging.disable(logging.CRITICAL)
+  hermetic_reset(rv)        # takes the pristine snapshot
   return rv
+
+
+_PRISTINE = {}
+def hermetic_reset (rv):
+  """Executions must not see each other: put the library's process-wide state (module globals and class attributes
+  of EventMixin that are plain containers or counters) back to what it was at import time."""
+  if not _PRISTINE:
+    import copy
+    for holder, name in ((rv, "mod"), (rv.EventMixin, "cls")):
+      snap = {}
+      for k, v in list(vars(holder).items()):
+        if k.startswith("__"): continue
+        if isinstance(v, (dict, set, list, int)) and not isinstance(v, bool): snap[k] = copy.copy(v)
+      _PRISTINE[name] = snap
+    return
+  import copy
+  for holder, name in ((rv, "mod"), (rv.EventMixin, "cls")):
+    snap = _PRISTINE[name]
+    for k, v in list(vars(holder).items()):
+      if k.startswith("__"): continue
+      if k in snap:
+        if vars(holder)[k] != snap[k] or isinstance(v, (dict, set, list)): setattr(holder, k, copy.copy(snap[k]))
+      elif isinstance(v, (dict, set, list, int)) and not isinstance(v, bool) and not callable(v):
+        # state that did not exist at import time (created lazily on the class / module)
+        try: delattr(holder, k)
+        except Exception: pass
 
 
 class Sub (object):
@@ -48,6 +75,7 @@ class World (object):
   """Fresh real source + handlers + reference model for one execution."""
   def __init__ (self, rv, ctx, rep):
     self.rv = rv; self.ctx = ctx; self.rep = rep
+    hermetic_reset(rv)
     class E1 (rv.Event): pass
     class E2 (rv.Event): pass
     class E3 (rv.Event): pass
@@ -55,6 +83,14 @@ class World (object):
       _eventMixin_events = set([E1, E2])
     self.E = {"E1": E1, "E2": E2, "E3": E3}
     self.src = Source()
+    # a neighbouring source: shares the event class E1 with the first one and declares a DIFFERENT class that is
+    # also called "E2" (pox has such pairs); whatever happens on it must not show on the first source, and vice versa
+    E2b = type("E2", (rv.Event,), {})
+    class SourceB (rv.EventMixin):
+      _eventMixin_events = set([E1, E2b])
+    self.B = SourceB(); self.EB = {"E1": E1, "E2": E2b}
+    self.bsub = {}            # etype -> token of B's one handler for it
+    self.b_raising = None; self.b_got = []
     self.owners = {}          # hid -> owner object (strong ref held by the harness)
     self.subs = []            # all Sub records in subscription order
     self.stack = []           # active deliveries
@@ -63,6 +99,7 @@ class World (object):
     self.next_fresh = NH
     self.violated = None
     self.ninv = 0
+    self.two = False
 
   # ----- handlers -----------------------------------------------------------
   def owner (self, hid):
@@ -75,6 +112,39 @@ class World (object):
       o = Owner(); o.hid = hid
       self.owners[hid] = o
     return o
+
+  def b_handler (self, etype):
+    world = self
+    def h (event, *a, **kw):
+      if world.b_raising != etype or type(event) is not world.EB[etype]:
+        world.fail("cross-source-delivery", "the neighbouring source's %s handler was invoked with %r while %s" %
+                   (etype, type(event).__name__, "it was raising " + world.b_raising if world.b_raising else "it was raising nothing"))
+      world.b_got.append(etype)
+    hs = self.__dict__.setdefault("_bh", {})
+    if etype not in hs: hs[etype] = h
+    return hs[etype]
+
+  def do_b (self, op):
+    _, what, etype = op
+    B = self.B
+    if what == "sub":
+      self.bsub[etype] = B.addListener(self.EB[etype], self.b_handler(etype))
+    elif what == "byname":
+      self.bsub[etype] = B.addListenerByName(etype, self.b_handler(etype))
+    elif what == "churn":
+      # subscribe and unsubscribe again at once: the neighbour's handler list for the type exists but is empty
+      B.removeListener(B.addListener(self.EB[etype], self.b_handler(etype)))
+    elif what == "unsub":
+      B.removeListener(self.b_handler(etype)); self.bsub.pop(etype, None)
+    elif what == "raise":
+      self.b_raising = etype; self.b_got = []
+      try:
+        B.raiseEvent(self.EB[etype]())
+      finally:
+        self.b_raising = None
+      want = [etype] if etype in self.bsub else []
+      if self.b_got != want:
+        self.fail("neighbour-source-delivery", "the neighbouring source raised %s: its handler ran %d time(s), expected %d" % (etype, len(self.b_got), len(want)))
 
   def fail (self, clause, what):
     if self.violated is None:
@@ -308,7 +378,33 @@ class World (object):
       self.model_remove(lambda s: s.hid == hid and s.weak, None)
 
 
+def ops_two (w):
+  """Reduced alphabet on the first source plus operations on the neighbouring source."""
+  ops = []
+  used = set(s.hid for s in w.subs)
+  nxt = min([h for h in range(NH) if h not in used] or [NH])
+  for hid in range(min(nxt + 1, 2)):
+    busy = lambda et: any(s.alive and s.hid == hid and s.etype == et for s in w.subs)
+    if not busy("E1"):
+      for prio in (0, -1, 1): ops.append(("sub", hid, "E1", prio, "plain"))
+      ops.append(("sub", hid, "E1", 0, "byname"))
+    if not busy("E2"):
+      ops.append(("sub", hid, "E2", 0, "byname")); ops.append(("sub", hid, "E2", 0, "plain"))
+  for hid in sorted(used):
+    if hid in w.owners: ops.append(("unsub-handler", hid, None))
+  ops += [("raise", "E1", "inst"), ("raise", "E2", "inst")]
+  for et in ("E1", "E2"):
+    if et not in w.bsub:
+      ops.append(("B", "sub", et)); ops.append(("B", "byname", et))
+    else:
+      ops.append(("B", "unsub", et))
+    ops.append(("B", "raise", et))
+  if "E1" not in w.bsub: ops.append(("B", "churn", "E1"))
+  return ops
+
+
 def ops_alphabet (w, thorough):
+  if w.two: return ops_two(w)
   """Enabled top-level operations in the current state (symmetry: handler identities are
   interchangeable, so a fresh identity is only introduced in index order)."""
   ops = []
@@ -389,11 +485,19 @@ def apply_op (w, op):
   elif k == "drop":
     w.feats.add("drop")
     w.do_drop(op[1])
+  elif k == "B":
+    w.feats.add("two-sources")
+    try:
+      w.do_b(op)
+    except Stop: raise
+    except Exception as e:
+      w.fail("internal-error", "operation %r on the neighbouring source failed inside the library: %s: %s" % (op[1:], type(e).__name__, e))
 
 
-def make_run (rv, rep, depth, thorough):
+def make_run (rv, rep, depth, thorough, two=False):
   def run (ctx):
     w = World(rv, ctx, rep)
+    w.two = two
     try:
       for step in range(depth):
         ops = ops_alphabet(w, thorough)
@@ -435,17 +539,17 @@ def explains (known_key, key):
 
 
 def _worker (args):
-  first_ops, depth, dev, thorough = args
+  first_ops, depth, dev, thorough, two = args
   rv = _import()
   rep = Report(PID, "model_checking")
-  run = make_run(rv, rep, depth, thorough)
+  run = make_run(rv, rep, depth, thorough, two)
   def on_exec (ctx, w):
     rep.evaluations += 1
     rep.outcome((tuple(w.hist[-6:]), w.violated and w.violated[0]))
     if w.violated:
       clause, what = w.violated
       rep.violation(key_of(clause, w.feats), what,
-                    dict(choices=ctx.choices(), depth=depth, history=w.hist))
+                    dict(choices=ctx.choices(), depth=depth, two=two, history=w.hist))
     elif rep.evaluations % 50000 == 1:
       rep.sample(dict(history=w.hist))
   old = sys.stderr; sys.stderr = io.StringIO()
@@ -481,7 +585,8 @@ def run (cfg):
               "unsubscribe by handler / eid / (type,eid) / eid+type, raise instance/class/no-errors form, undeclared "
               "type, drop weak owner) on a real EventMixin with up to %d handler identities (symmetry-reduced), every "
               "handler invocation choosing among %d behaviours with <=%d non-default ones per history; a final probe "
-              "raise after every history. distinct = distinct (history tail, verdict) digests"
+              "raise after every history. Second family: two sources side by side (a shared event class and two different classes "
+              "of the same name): reduced alphabet on the first plus subscribe / by-name subscribe / subscribe-and-unsubscribe / unsubscribe / raise on the neighbour, depth 4 (thorough 5). distinct = distinct (history tail, verdict) digests"
               % (depth, NH, len(BEH), dev))
   rep.bound = dict(plans=[dict(depth=d, deviations=v) for d, v in plans], handlers=NH)
   rep.assumptions = ["handler identities are interchangeable (symmetry reduction)",
@@ -490,7 +595,13 @@ def run (cfg):
   # partition on the first operation
   w0 = World(rv, Ctx([]), rep)
   n0 = len(ops_alphabet(w0, not cfg.quick)) + 1
-  items = [([f], d, v, not cfg.quick) for (d, v) in plans for f in range(n0)]
+  items = [([f], d, v, not cfg.quick, False) for (d, v) in plans for f in range(n0)]
+  # two sources side by side (reduced alphabet on the first one)
+  w0.two = True
+  n2 = len(ops_alphabet(w0, False)) + 1
+  plans2 = cfg.pick([(4, 0), (3, 1)], [(5, 1), (4, 2)])
+  items += [([f], d, v, not cfg.quick, True) for (d, v) in plans2 for f in range(n2)]
+  rep.bound["two_source_plans"] = [dict(depth=d, deviations=v) for d, v in plans2]
   for r in pmap(_worker, items, cfg.workers, seed=cfg.seed):
     rep.merge(r)
   rep.state_count = rep.evaluations
@@ -501,7 +612,7 @@ def run (cfg):
 def replay (cfg, data):
   rv = _import()
   rep = Report(PID, "model_checking")
-  runf = make_run(rv, rep, data["depth"], not cfg.quick)
+  runf = make_run(rv, rep, data["depth"], not cfg.quick, data.get("two", False))
   ctx = Ctx(list(data["choices"]))
   w = runf(ctx)
   text = "\n".join(w.hist) + "\n=> %r" % (w.violated,)
